@@ -23,15 +23,16 @@ const (
 	oAPPEND    = 0x400
 	oDIRECTORY = 0x10000
 
-	eNOENT    = 2
-	eIO       = 5
-	eBADF     = 9
-	eEXIST    = 17
-	eNOTDIR   = 20
-	eISDIR    = 21
-	eINVAL    = 22
-	eNOSPC    = 28
-	eNOTEMPTY = 39
+	eNOENT       = 2
+	eIO          = 5
+	eBADF        = 9
+	eEXIST       = 17
+	eNOTDIR      = 20
+	eISDIR       = 21
+	eINVAL       = 22
+	eNAMETOOLONG = 36
+	eNOSPC       = 28
+	eNOTEMPTY    = 39
 
 	sIFREG = 0x8000
 	sIFDIR = 0x4000
@@ -155,6 +156,9 @@ func (k *Kernel) resolve(dir *Inode, path string) (parent *Inode, name string, e
 	}
 	cur := dir
 	for i, p := range parts {
+		if len(p) > 255 { // NAME_MAX
+			return nil, "", nil, eNAMETOOLONG
+		}
 		if !cur.dir {
 			return nil, "", nil, eNOTDIR
 		}
